@@ -110,4 +110,17 @@ PROPS["C13"] = {
     "assumptions": ["charwise-pma, std and portable-simd are identified in the model (same function); they are covered by the feature-matrix run only"],
 }
 
+PROPS["C15"] = {
+    "families": ["C15"],
+    "nontrivial": _ok_obs,
+    "rule": "every sentence of <=3 (quick) / <=4 (thorough) characters over {a, CR, LF, e, U+0301, regional indicator} x every label vector "
+            "in {N,W,U}^(n-1), and random texts of <=8 units drawn from ZWJ sequences, flags, combining marks, Hangul jamo, CR/LF/CRLF, "
+            "prepend/spacing marks and all six character types with random labels and tags; each through all six character-type "
+            "filters, the line-break filter, the grapheme filter (cluster lengths supplied by the real unicode-segmentation crate) and "
+            "the pattern tagger with rules for substrings of the text (short and absent entries); non-trivial = distinct case whose filter ran",
+    "scopes": {"quick": "all sentences len<=3 over 6 symbols x all label vectors x 9 filters", "thorough": "len<=4"},
+    "assumptions": ["the grapheme segmentation is an input of the model (any list of cluster lengths >=1 summing to the text length); the "
+                    "real crate's segmentation is supplied by the harness and checked against the crate on every case"],
+}
+
 SETUP_EXTRA = [extras.setup_feature_builds]
